@@ -643,7 +643,8 @@ end Examples
 bounds) and the REAL `PerceptionAnalyzer3D.add` on symbolic inputs, over every assignment of the decision atoms they query
 (`PEval/Gen/AnalyzerDT.lean`).  `AnalyzerDT.areaSkel` / `rowsSkel` are the hand-written skeletons of the model over the same
 atoms; `DT.agree` decides, completely for the finite decision space and by kernel evaluation, that table and skeleton give
-the same result under EVERY valuation (order atoms of different grid lines are treated as independent: an
+the same result (area tables) resp. results related by `rowsRel` (row tables: same multiset of row pairs whatever their numbering and
+order, both layouts on F11's signature) under EVERY valuation (order atoms of different grid lines are treated as independent: an
 over-approximation of the input space).  A shape the translator cannot follow has `tree = none` (the statements are vacuous
 for it; the evidence says so and the correspondence runs carry the tie alone). -/
 section Table
@@ -652,30 +653,62 @@ open PEval.DT PEval.AnalyzerDT
 def skelOfKey (k1 k2 : Nat) : DTree := if k1 = 0 then areaSkel (divisionsOf k2) else rowsSkel k2
 def atomsOfKey (k1 k2 : Nat) (v : Val) : Res := if k1 = 0 then areaAtoms (divisionsOf k2) v else rowsAtoms k2 v
 
+/-- what a table has to satisfy against its skeleton.  Area tables (key1 = 0): EQUAL results.  Row tables: the relation `rowsRel` —
+the table's row pairs as a multiset (the translator reads the pairs from the index and sorts them: C19 states neither a numbering nor an
+order of the pairs) equal the model's, except that an FP pair carrying a ground truth may show the estimate only (the table-layout
+repair of known finding F11; the model shows F11's layout). -/
+def relOfKey (k1 : Nat) (c m : Res) : Bool := if k1 = 0 then c == m else rowsRel c m
+
 def analyzerTablesOk : Bool :=
   Gen.AnalyzerDT.tables.all fun row =>
     match row.2.2 with
-    | some t => agree [] [] t (skelOfKey row.1 row.2.1) PA.empty
+    | some t =>
+      if row.1 = 0 then agree [] [] t (areaSkel (divisionsOf row.2.1)) PA.empty
+      else agree [] [] (relTree rowsRel t (rowsSkel row.2.1)) (.leaf (.ret true)) PA.empty
     | none => true
 
 /-- THE per-run obligation: the checker accepts every regenerated table -/
 theorem analyzer_table_check : analyzerTablesOk = true := by decide +kernel
 
-/-- the code's decision tables (area index: 1, 3, 9 divisions; row status: every frame shape with at most two items) equal
-the model's skeletons under every valuation of the atoms -/
+/-- the code's decision tables (area index: 1, 3, 9 divisions; row status: every frame shape with at most two items) agree with the
+model's skeletons under every valuation of the atoms: area tables give the SAME result, row tables a result related by `rowsRel` -/
 theorem analyzer_code_table_eq_model :
-    ∀ row ∈ Gen.AnalyzerDT.tables, ∀ t, row.2.2 = some t → ∀ v : Val, eval t v = atomsOfKey row.1 row.2.1 v := by
+    ∀ row ∈ Gen.AnalyzerDT.tables, ∀ t, row.2.2 = some t → ∀ v : Val,
+      relOfKey row.1 (eval t v) (atomsOfKey row.1 row.2.1 v) = true := by
   intro row hrow t ht v
   have h := analyzer_table_check
   unfold analyzerTablesOk at h
   rw [List.all_eq_true] at h
   have h2 := h row hrow
   rw [ht] at h2
-  rw [agree_sound h2 v (by simp [consistent])]
-  unfold skelOfKey atomsOfKey
-  split
-  · exact eval_areaSkel _ v
-  · exact eval_rowsSkel _ v
+  unfold relOfKey atomsOfKey
+  by_cases hk : row.1 = 0
+  · simp only [hk, if_true] at h2 ⊢
+    rw [agree_sound h2 v (by simp [consistent]), eval_areaSkel]
+    exact beq_self_eq_true _
+  · simp only [hk, if_false] at h2 ⊢
+    have h3 := agree_sound h2 v (by simp [consistent])
+    rw [eval_relTree, eval_rowsSkel] at h3
+    simpa [eval] using h3
+
+/-- area tables: equality -/
+theorem area_code_table_eq_atoms {key : Nat} {t : DTree} (ht : (0, key, some t) ∈ Gen.AnalyzerDT.tables) (v : Val) :
+    eval t v = areaAtoms (divisionsOf key) v := by
+  have h := analyzer_code_table_eq_model _ ht t rfl v
+  simpa [relOfKey, atomsOfKey] using h
+
+/-- row tables: the relation; and equality wherever the skeleton's number has no FP pair holding a ground truth -/
+theorem rows_code_table_rel_atoms {key : Nat} {t : DTree} (ht : (1, key, some t) ∈ Gen.AnalyzerDT.tables) (v : Val) :
+    rowsRel (eval t v) (rowsAtoms key v) = true := by
+  have h := analyzer_code_table_eq_model _ ht t rfl v
+  simpa [relOfKey, atomsOfKey] using h
+
+theorem rowsRel_eq_of_noF11 {c : Res} {m : Nat} (hn : noF11Code 4 m = true) (h : rowsRel c (.other m) = true) : c = .other m := by
+  cases c with
+  | other k => simp only [rowsRel] at h; rw [relCode_eq_of_noF11 4 k m hn h]
+  | ret _ => simp [rowsRel] at h
+  | raise _ => simp [rowsRel] at h
+  | unreachable => simp [rowsRel] at h
 
 /-- the CODE's area table, read at the order atoms of a concrete input (positive bounds, ego-frame position `(x, y)`), is
 the MODEL's `getAreaIdx` on the MODEL's `generateAreaPoints` grid -/
@@ -683,8 +716,7 @@ theorem area_code_table_eq_getAreaIdx {key : Nat} {t : DTree} (ht : (0, key, som
     (hn : divisionsOf key = 1 ∨ divisionsOf key = 3 ∨ divisionsOf key = 9)
     (mX mY x y : Rat) (_hX : 0 < mX) (_hY : 0 < mY) :
     eval t (areaValuation mX mY x y) = areaResOfModel (divisionsOf key) mX mY x y := by
-  rw [analyzer_code_table_eq_model _ ht t rfl]
-  simp only [atomsOfKey, if_true]
+  rw [area_code_table_eq_atoms ht]
   exact areaAtoms_valuation _ hn mX mY x y
 
 /-- C19's area clause for the code's table: the table never answers with an exception; an index `i` means the ego-frame
@@ -736,50 +768,89 @@ theorem table_on_grid_line {key : Nat} {t : DTree} (ht : (0, key, some t) ∈ Ge
     rw [area_code_table_eq_getAreaIdx ht hn mX mY x _ hX hY]
     exact model_on_y_line _ hn mX mY x hY k hg
 
-/-- the CODE's row-status table, for every tabulated frame shape and every assignment of its atoms, is the number computed
-from the MODEL's `Analyzer.add` run on index objects (item `j` has estimate `e<j>`, ground truth `g<j>`) -/
+/-- the CODE's row-status table, for every tabulated frame shape and every assignment of its atoms, is RELATED (`rowsRel`: same
+multiset of row pairs; an FP pair carrying a ground truth may show the estimate only) to the number computed from the MODEL's
+`Analyzer.add` run on index objects (item `j` has estimate `e<j>`, ground truth `g<j>`) — and EQUAL to it on every valuation outside
+F11's signature (`noFPwithGT`: no FP result of the frame carries a ground truth) -/
 theorem rows_code_table_eq_model {key : Nat} {t : DTree} (ht : (1, key, some t) ∈ Gen.AnalyzerDT.tables)
     (hk : key ∈ rowKeys) (b : Bool × Bool × Bool × Bool) (hb : b ∈ allBits) :
-    eval t (valOfBits b) = rowsModel key (valOfBits b) := by
-  rw [analyzer_code_table_eq_model _ ht t rfl]
-  simp only [atomsOfKey, show ¬ ((1 : Nat) = 0) by decide, if_false]
+    rowsRel (eval t (valOfBits b)) (rowsModel key (valOfBits b)) = true ∧
+    (noFPwithGT key (valOfBits b) = true → eval t (valOfBits b) = rowsModel key (valOfBits b)) := by
   have h := rows_skel_eq_model key hk
   unfold rowsSkelOk at h
   rw [List.all_eq_true] at h
-  exact beq_iff_eq.mp (h b hb)
+  have he : rowsAtoms key (valOfBits b) = rowsModel key (valOfBits b) := beq_iff_eq.mp (h b hb)
+  have hr := rows_code_table_rel_atoms ht (valOfBits b)
+  rw [he] at hr
+  refine ⟨hr, fun hno => ?_⟩
+  have hn := rows_noF11 key hk
+  unfold rowsNoF11Ok at hn
+  rw [List.all_eq_true] at hn
+  have hn2 := hn b hb
+  rw [hno, he] at hn2
+  simp only [Bool.not_true, Bool.false_or] at hn2
+  unfold rowsModel at hn2 hr ⊢
+  exact rowsRel_eq_of_noF11 hn2 hr
 
-/-- C19's row clause for the code's table: the DataFrame the table describes is the model's, whose rows are — forgetting the
-index — exactly one pair per TP result, FP result, TN object and FN object of the frame (`frame_block`), numbered 0, 1, … -/
+/-- C19's row clause for the code's table: the DataFrame the table describes has the row pairs of the model's (as a multiset; FP pairs
+carrying a ground truth with or without it), whose rows are — forgetting the index — exactly one pair per TP result, FP result, TN
+object and FN object of the frame (`frame_block`); the model numbers them 0, 1, … (a numbering the code's table is NOT held to) -/
 theorem table_rows_per_item {key : Nat} {t : DTree} (ht : (1, key, some t) ∈ Gen.AnalyzerDT.tables)
     (hk : key ∈ rowKeys) (b : Bool × Bool × Bool × Bool) (hb : b ∈ allBits) :
     let T := (addAll (fun _ _ => some 0) [[frameOf key (valOfBits b)]]).table
-    eval t (valOfBits b) = .other (tableCode T) ∧
+    rowsRel (eval t (valOfBits b)) (.other (tableCode T)) = true ∧
+    (noFPwithGT key (valOfBits b) = true → eval t (valOfBits b) = .other (tableCode T)) ∧
     T.map RowPair.strip = frameItems (fun _ _ => some 0) 0 (frameOf key (valOfBits b)) ∧
     T.map (·.index) = List.range T.length := by
-  refine ⟨rows_code_table_eq_model ht hk b hb, ?_, index_range _ _⟩
+  have h0 := rows_code_table_eq_model ht hk b hb
+  refine ⟨h0.1, h0.2, ?_, index_range _ _⟩
   have := (rows_per_item (fun _ _ => some 0) [[frameOf key (valOfBits b)]]).1
   simpa [allItemsFrom, sceneItems] using this
 
-/-- readable instances: one TP result and one GT-less FP result give the rows (TP, TP) of item 0 and (all-None, FP) of
-item 1; one FN object gives (FN, all-None); one TN object (TN, all-None) -/
+/-- readable instances: one TP result and one GT-less FP result give the pairs (TP, TP) of item 0 and (all-None, FP) of item 1; when
+the FP result carries a ground truth, item 1's pair is (FP, FP) — F11's layout — or (all-None, FP) — its repair; one FN object gives
+(FN, all-None); one TN object (TN, all-None) -/
 theorem table_rows_examples {t4 t27 t9 : DTree} (h4 : (1, 4, some t4) ∈ Gen.AnalyzerDT.tables)
     (h27 : (1, 27, some t27) ∈ Gen.AnalyzerDT.tables) (h9 : (1, 9, some t9) ∈ Gen.AnalyzerDT.tables) :
     eval t4 (valOfBits (false, false, true, false)) = .other ((rowDigit 1 1 0 + 1) + (rowDigit 0 2 1 + 1) * 64) ∧
-    eval t4 (valOfBits (false, false, false, false)) = .other ((rowDigit 1 1 0 + 1) + (rowDigit 2 2 1 + 1) * 64) ∧
+    (eval t4 (valOfBits (false, false, false, false)) = .other ((rowDigit 1 1 0 + 1) + (rowDigit 2 2 1 + 1) * 64) ∨
+      eval t4 (valOfBits (false, false, false, false)) = .other ((rowDigit 1 1 0 + 1) + (rowDigit 0 2 1 + 1) * 64)) ∧
     (∀ v, eval t27 v = .other (rowDigit 4 0 0 + 1)) ∧ (∀ v, eval t9 v = .other (rowDigit 3 0 0 + 1)) := by
   refine ⟨?_, ?_, fun v => ?_, fun v => ?_⟩
-  · rw [analyzer_code_table_eq_model _ h4 t4 rfl]
-    show rowsAtoms 4 (valOfBits (false, false, true, false)) = _
-    decide +kernel
-  · rw [analyzer_code_table_eq_model _ h4 t4 rfl]
-    show rowsAtoms 4 (valOfBits (false, false, false, false)) = _
-    decide +kernel
-  · rw [analyzer_code_table_eq_model _ h27 t27 rfl]
-    show rowsAtoms 27 v = _
-    rfl
-  · rw [analyzer_code_table_eq_model _ h9 t9 rfl]
-    show rowsAtoms 9 v = _
-    rfl
+  · have h := rows_code_table_rel_atoms h4 (valOfBits (false, false, true, false))
+    have e : rowsAtoms 4 (valOfBits (false, false, true, false)) = .other ((rowDigit 1 1 0 + 1) + (rowDigit 0 2 1 + 1) * 64) := by
+      decide +kernel
+    rw [e] at h
+    exact rowsRel_eq_of_noF11 (by decide) h
+  · have h := rows_code_table_rel_atoms h4 (valOfBits (false, false, false, false))
+    have e : rowsAtoms 4 (valOfBits (false, false, false, false)) = .other (7 + 38 * 64) := by decide +kernel
+    rw [e] at h
+    show _ = Res.other (7 + 38 * 64) ∨ _ = Res.other (7 + 36 * 64)
+    generalize eval t4 (valOfBits (false, false, false, false)) = c at h
+    cases c with
+    | other k =>
+      simp only [rowsRel, relCode, cellRel, Bool.or_eq_true, Bool.and_eq_true, beq_iff_eq] at h
+      have : k = 7 + 38 * 64 ∨ k = 7 + 36 * 64 := by omega
+      rcases this with rfl | rfl
+      · exact Or.inl rfl
+      · exact Or.inr rfl
+    | ret _ => simp [rowsRel] at h
+    | raise _ => simp [rowsRel] at h
+    | unreachable => simp [rowsRel] at h
+  · have h := rows_code_table_rel_atoms h27 v
+    exact rowsRel_eq_of_noF11 (m := rowDigit 4 0 0 + 1) (by decide) h
+  · have h := rows_code_table_rel_atoms h9 v
+    exact rowsRel_eq_of_noF11 (m := rowDigit 3 0 0 + 1) (by decide) h
+
+/-- the per-run relation distinguishes: against the skeleton of one TP + one FP result, a table that writes the FP pair's ground truth
+where there is none, or that of another shape, is rejected; F11's layout and its repair are both accepted where the FP carries a ground
+truth (built from the skeleton itself by rewriting that leaf) -/
+example : agree [] [] (relTree rowsRel (rowsSkel 4) (rowsSkel 4)) (.leaf (.ret true)) PA.empty = true := by decide +kernel
+example : agree [] [] (relTree rowsRel (rowsSkel 10) (rowsSkel 4)) (.leaf (.ret true)) PA.empty = false := by decide +kernel
+example : agree [] [] (relTree rowsRel (mapT (fun r => if r = .other (7 + 38 * 64) then .other (7 + 36 * 64) else r) (rowsSkel 4))
+    (rowsSkel 4)) (.leaf (.ret true)) PA.empty = true := by decide +kernel
+example : agree [] [] (relTree rowsRel (mapT (fun r => if r = .other (7 + 36 * 64) then .other (7 + 38 * 64) else r) (rowsSkel 4))
+    (rowsSkel 4)) (.leaf (.ret true)) PA.empty = false := by decide +kernel
 
 /-- non-vacuity: the skeleton on concrete atoms (9 divisions of a 96 × 48 field: (40, -20) lies in area 6, (32, 0) on a
 grid line in none), the tables exist, and the checker distinguishes skeletons -/
